@@ -46,6 +46,22 @@ def one_trace(rng, tid, prop):
     kind = rng.choice(["int", "int", "float"])
     spec = gen.rand_poly_spec(rng, shape=rng.choice([(), (2,), (2, 2), (1, 2), (3,)]), names=names, kind=kind,
                               max_terms=4, max_exp=3, min_terms=1)
+    if rng.random() < 0.3:
+        # evaluation must not depend on the retain / sort options (C15); the polynomial keeps its unused names
+        rec.do("set_options", [], keep=False, kw={"retain_names": rng.random() < 0.5, "retain_coefficients": rng.random() < 0.5,
+                                                  "sort_graded": rng.random() < 0.5}, bad=[], prop="C14")
+    if rng.random() < 0.3 and len(names) > 1:
+        # make sure some name is unused (only zero exponents in its column), preferably not the last one
+        j = rng.randrange(len(names) - 1)
+        for row in spec["rows"]:
+            row[j] = 0
+        seen, rows, coefs = set(), [], []
+        for row, cf in zip(spec["rows"], spec["coefs"]):
+            if tuple(row) not in seen:
+                seen.add(tuple(row))
+                rows.append(row)
+                coefs.append(cf)
+        spec["rows"], spec["coefs"] = rows, coefs
     p = rec.new(build_poly(spec))
     snames = ["q%d" % n for n in names]
     for _ in range(rng.randint(3, 7)):
@@ -101,6 +117,7 @@ def one_trace(rng, tid, prop):
                     layout["kw"].append(["q77", len(args)])
                     bind.append({"name": 77, "arg": len(args), "how": "kw"})
         rec.do("call", args, keep=False, layout=layout, bind=bind, spelling=rng.choice(["call", "function"]))
+    reset_options()
     return rec.to_json()
 
 
